@@ -161,6 +161,7 @@ func runC13(c *Ctx) {
 	c.c13UpdatesAreAtomic()
 	c.c13OperandsLeftAlone()
 	c.c13QueueDrainedBeforeTheSinkCloses()
+	c.c13OnlyTheLoneLineBreakIsSkipped()
 }
 
 // c13Formats: "delivered intact". A message that travels through the format-string position of a printf-like
@@ -1268,4 +1269,146 @@ func (c *Ctx) c13QueueDrainedBeforeTheSinkCloses() {
 	}
 	c.check(bad == "", "L15", key, c.ipos(queueCloses[0]), "no path closes the slow writer and then the diode",
 		"the slow writer is closed before the diode ("+bad+"): closing the diode hands the messages still in the ring to a writer which is already closed — 100 messages logged before Close() are all lost and none is reported as dropped")
+}
+
+// c13OnlyTheLoneLineBreakIsSkipped (L16): "each message is delivered to the sink exactly once … never lost". Some loggers skip
+// a message that consists of a line break and nothing else (an artefact of writers that end every line). That is the one
+// message they may skip: the return that hands nothing on lies where the message was found to have exactly one operand.
+// `len(message) > 0 && message[0] == "\n"` — which reads like an index guard — skips every message that merely starts with
+// a line-break operand. Decided for the Log / LogError methods of the logging packages: a return reachable from the entry
+// without any call that could deliver the message is dominated by the true edge of `len(operands) == 1`, in the method itself
+// or in the predicate of the package it asks.
+func (c *Ctx) c13OnlyTheLoneLineBreakIsSkipped() {
+	c.rule("L16", "a Log / LogError method returns without handing the message on only where the message has exactly one operand (`len(operands) == 1`: the lone line break): a message is not skipped for the way it begins", 2)
+	isLenEq1 := func(g *ssa.Function) func(v ssa.Value) bool {
+		return func(v ssa.Value) bool {
+			b, ok := v.(*ssa.BinOp)
+			if !ok || b.Op != token.EQL {
+				return false
+			}
+			isLen := func(x ssa.Value) bool {
+				cl, ok := x.(*ssa.Call)
+				if !ok {
+					return false
+				}
+				bi, isB := cl.Call.Value.(*ssa.Builtin)
+				if !isB || bi.Name() != "len" || len(cl.Call.Args) != 1 {
+					return false
+				}
+				_, isP := resolveValue(cl.Call.Args[0]).(*ssa.Parameter)
+				return isP
+			}
+			isOne := func(x ssa.Value) bool { n, ok := constInt(x); return ok && n == 1 }
+			return (isLen(b.X) && isOne(b.Y)) || (isLen(b.Y) && isOne(b.X))
+		}
+	}
+	n := 0
+	for _, rel := range c13Pkgs {
+		for _, f := range c.srcFuncs(rel) {
+			if f.Parent() != nil || f.Blocks == nil || f.Signature.Recv() == nil || (f.Name() != "Log" && f.Name() != "LogError") {
+				continue
+			}
+			if !f.Signature.Variadic() {
+				continue
+			}
+			// predicates of the package asked about the message
+			isPredicateCall := func(in ssa.Instruction) (*ssa.Function, bool) {
+				cl, ok := in.(*ssa.Call)
+				if !ok {
+					return nil, false
+				}
+				g := staticCallee(&cl.Call)
+				if g == nil || !inModule(g) || g.Blocks == nil {
+					return nil, false
+				}
+				res := g.Signature.Results()
+				return g, res.Len() == 1 && res.At(0).Type().String() == "bool"
+			}
+			delivers := func(in ssa.Instruction) bool {
+				cl, ok := in.(*ssa.Call)
+				if !ok {
+					return false
+				}
+				if _, isB := cl.Call.Value.(*ssa.Builtin); isB {
+					return false
+				}
+				if _, isPred := isPredicateCall(in); isPred {
+					return false
+				}
+				return true
+			}
+			var skips []*ssa.Return
+			allInstrs(f, func(in ssa.Instruction) {
+				r, ok := in.(*ssa.Return)
+				if !ok {
+					return
+				}
+				if hit := pathPruned(f, nil, delivers, func(i ssa.Instruction) bool { return i == ssa.Instruction(r) }, nil); hit != nil {
+					skips = append(skips, r)
+				}
+			})
+			deliversAtAll := false
+			allInstrs(f, func(in ssa.Instruction) {
+				if delivers(in) {
+					deliversAtAll = true
+				}
+			})
+			if len(skips) == 0 || !deliversAtAll {
+				continue // nothing is skipped — or nothing is ever delivered on this stream, by design (the quiet and the no-op loggers)
+			}
+			n++
+			bad := ""
+			for _, r := range skips {
+				if onBoolSide(r, true, isLenEq1(f)) {
+					continue
+				}
+				// through a predicate of the package
+				viaPredicate := false
+				onBoolSide(r, true, func(v ssa.Value) bool {
+					cl, ok := v.(*ssa.Call)
+					if !ok {
+						return false
+					}
+					g, isPred := isPredicateCall(cl)
+					if !isPred {
+						return false
+					}
+					// every way the predicate answers true goes over len(param) == 1
+					allTrue := true
+					allInstrs(g, func(i2 ssa.Instruction) {
+						rr, ok := i2.(*ssa.Return)
+						if !ok {
+							return
+						}
+						for _, l := range sources(rr.Results[0], deriveOpts{}) {
+							if b, isB := constBool(l); isB && !b {
+								continue
+							}
+							// a non-constant (or true) answer: its block must lie beyond len == 1
+							if li, isI := l.(ssa.Instruction); isI {
+								if !onBoolSide(li, true, isLenEq1(g)) {
+									allTrue = false
+								}
+							} else if !onBoolSide(rr, true, isLenEq1(g)) {
+								allTrue = false
+							}
+						}
+					})
+					if allTrue {
+						viaPredicate = true
+					}
+					return allTrue
+				})
+				if !viaPredicate {
+					bad = c.ipos(r)
+				}
+			}
+			c.FuncsSeen[fname(f)] = true
+			c.check(bad == "", "L16", fname(f)+"/only-the-lone-line-break", c.pos(f.Pos()), "the return that hands nothing on lies where the message has exactly one operand",
+				"the return at "+bad+" hands nothing on and is not confined to messages of exactly one operand: a message of several operands whose first is a line break — Log(\"\\n\", \"text\") — is dropped, on both streams, silently, and in a composite only by this member")
+		}
+	}
+	if n == 0 {
+		c.info("L16", "logs/no-skipping-logger", "-", "no Log / LogError method returns without handing its message on")
+	}
 }
